@@ -319,7 +319,15 @@ def comment_window(ctx):
     head = [n for n in g.nodes if n.stmt is wh][0]
     resets = [n for n in g.nodes if isinstance(n.stmt, ast.Assign) and src(n.stmt.targets[0]) == inv.get("in_translator_comments") and const(n.stmt.value) is False]
     # entry points of the dispatch that handles everything except comments / blank text
-    chain = [s for s in lp.body if isinstance(s, ast.If) and isinstance(s.test, ast.Call) and dotted(s.test.func) == "isinstance" and "Comment" not in src(s.test)]
+    def _ifs(stmts):
+        # If statements of the loop body in source order, the arms of the comment branch included (a `continue` may have been
+        # written as an else)
+        for s_ in stmts:
+            if isinstance(s_, ast.If):
+                yield s_
+                yield from _ifs(s_.body)
+                yield from _ifs(s_.orelse)
+    chain = [s for s in _ifs(lp.body) if isinstance(s.test, ast.Call) and dotted(s.test.func) == "isinstance" and "Comment" not in src(s.test)]
     ctx.require(chain, "extract_nodes: node dispatch not found")
     start = g.nodes_of(chain[0])
     ctx.require(start, "dispatch not in CFG")
@@ -330,7 +338,7 @@ def comment_window(ctx):
                       "a node that is neither a comment nor blank text can be passed over without ending translator-comment collection (path %s): a later untagged ## remark and the stale tagged comment are then attached to a message they do not immediately precede" % g.fmt_path(bad))
     else:
         ctx.ok("window:ext.extract#reset-on-every-path", db.where(lp), "every non-comment node ends comment collection")
-    cm = [s for s in lp.body if isinstance(s, ast.If) and "parsetree.Comment" in src(s.test)]
+    cm = [s for s in _ifs(lp.body) if "parsetree.Comment" in src(s.test)]
     ctx.check(bool(cm) and "startswith(comment_tag)" in canon(src(cm[0]), nm_) and "in_translator_comments = True" in canon(src(cm[0]), nm_) and any(P.has(fn, p_) for p_ in NONEMPTY_TAGS), "window.starts-with-tag", db.where(cm[0]) if cm else db.where(lp), "comment collection does not start at a comment beginning with a configured tag", "starts at a tagged ## comment")
     # every configured tag is tried: the loop over the tags is left only from inside the branch of a tag that matched
     tl = [l_ for l_ in ast.walk(lp) if isinstance(l_, ast.For) and isinstance(l_.target, ast.Name) and nm_.get(l_.target.id) == "comment_tag"]
@@ -389,11 +397,16 @@ def lingua_path(ctx):
     ctx.require(srcv, "process_python: the code text is not taken from the stream (anchor)")
     # stripping in front of the code must be compensated in the line number
     strips = [c for c in walk_func(fn) if isinstance(c, ast.Call) and isinstance(c.func, ast.Attribute) and c.func.attr in ("strip", "lstrip") and not c.args]
-    comp = P.has(fn, "$s = $src.lstrip()\n%s += $src[:len($src) - len($s)].count('\\n')" % linep)
-    full_strip = [c for c in strips if c.func.attr == "strip" and (P.matches(c.func.value, "%s.getvalue()" % codep) or src(c.func.value) in srcv)]
-    ctx.check(bool(strips) and comp and not full_strip, "leading-lines-counted", db.where(strips[0]) if strips else db.where(fn), "the code is stripped of its leading white space (which holds the newline extract_nodes prepends and the first newline of a block) without adding the removed line terminators to the reported line: every message is reported too early", "removed leading line terminators are added to the line")
     call = [c for c in walk_func(fn) if isinstance(c, ast.Call) and dotted(c.func) == "self.python_extractor"]
-    ctx.check(bool(call) and len(call[0].args) == 4 and P.matches(call[0].args[3], "%s - 1" % linep), "base-line", db.where(call[0]) if call else db.where(fn), "the Python extractor is not given code_lineno - 1 as the line before the code", "line before the code = code_lineno - 1")
+    ctx.require(call and len(call[0].args) == 4, "process_python: call of the Python extractor with four arguments not found (anchor)")
+    # the line handed on, case by case, in terms of the parameters: code_lineno + <line terminators in the stripped prefix> - 1
+    lcases = sym_cases(fn, call[0].args[3])
+    ctx.require(lcases, "process_python: line argument of the Python extractor not resolved (anchor)")
+    G = "%s.getvalue()" % codep
+    comp = all(P.matches(v_, "%s + $g[:len($g) - len($g.lstrip())].count('\\n') - 1" % linep) and ("%s[:len(%s)" % (G, G)) in " ".join(src(v_).split()) for _c, v_ in lcases)
+    base = all(P.matches(v_, "%s + $g[:len($g) - len($g.lstrip())].count('\\n') - 1" % linep) or P.matches(v_, "%s - 1" % linep) for _c, v_ in lcases)
+    ctx.check(bool(strips) and comp, "leading-lines-counted", db.where(strips[0]) if strips else db.where(fn), "the code is stripped of its leading white space (which holds the newline extract_nodes prepends and the first newline of a block) without adding the removed line terminators to the reported line (line handed on: %s): every message is reported too early" % sorted({" ".join(src(v_).split())[:80] for _c, v_ in lcases}), "removed leading line terminators are added to the line")
+    ctx.check(base, "base-line", db.where(call[0]), "the Python extractor is not given code_lineno - 1 as the line before the code", "line before the code = code_lineno - 1")
     # clause handling
     # clause handling: the text handed to the Python extractor, case by case, in terms of the code read from the stream
     sio = [c for c in walk_func(fn) if isinstance(c, ast.Call) and dotted(c.func) in ("io.StringIO", "StringIO") and c.args]
